@@ -179,7 +179,8 @@ def parse_template(path):
         if cur is not None:
             if s.startswith("//@INVARIANT"):
                 at = re.search(r"at=`([^`]*)`", s).group(1)
-                cur.invariants.append((at, []))
+                hd = re.search(r"header=`([^`]*)`", s)
+                cur.invariants.append((at, [], hd.group(1) if hd else None))
                 mode = "inv"
                 continue
             if s.startswith("//@WRAP"):
@@ -265,7 +266,7 @@ def render(scratch, template_path, vacuity=False):
         if any(l.strip() for l in contract):
             rep["transformations"].append("contract spliced between signature and body (%d lines)" % len(contract))
         body2 = body
-        for at, inv in p.invariants:
+        for at, inv, newhead in p.invariants:
             blines = body2.splitlines(keepends=True)
             norm = _norm(at)
             hits = [i for i, l in enumerate(blines) if _norm(l).startswith(norm)]
@@ -275,6 +276,11 @@ def render(scratch, template_path, vacuity=False):
             if not blines[i].rstrip().endswith("{"):
                 raise Undecided("%s: loop header %r does not end with `{`" % (what, at))
             head = blines[i].rstrip()[:-1].rstrip()
+            if newhead:
+                if _norm(head) != _norm(at.rstrip("{").rstrip()):
+                    raise Undecided("%s: loop header %r changed; cannot name its ghost iterator" % (what, at))
+                head = re.match(r"\s*", blines[i]).group(0) + newhead
+                rep["transformations"].append("loop header `%s` written as `%s` (names Verus's ghost iterator; same loop)" % (_norm(at), newhead))
             blines[i] = head + "\n" + "\n".join(inv) + "\n" + re.match(r"\s*", blines[i]).group(0) + "{\n"
             body2 = "".join(blines)
             rep["transformations"].append("loop invariant spliced at `%s` (%d lines)" % (at, len(inv)))
@@ -335,6 +341,11 @@ def extract_part(prop, tier, seed, units_ignored, tag, only=None):
                 text, report, rel, cmd, out, diags, summary = run_extract(sc, u)
             except Undecided as ex:
                 undecided.append("%s: %s" % (u["name"], ex))
+                ob, viol = driver.probe_standin(prop, u["name"], sc, str(ex)[:120])
+                if ob:
+                    obligations.append(ob)
+                if viol:
+                    violations.append(viol)
                 continue
             info["cmds"].append("verus <extract of %s> --crate-type=lib --output-json --error-format=json" % u["name"])
             info["extract_report"].append({"unit": u["name"], "functions": report,
@@ -350,6 +361,12 @@ def extract_part(prop, tier, seed, units_ignored, tag, only=None):
             for vv in v:
                 driver.verus_replay(prop, vv, sc)
             violations += v
+            if (un and not v) or tier == "thorough":
+                ob, viol = driver.probe_standin(prop, u["name"], sc, (un[0] if un else "thorough tier")[:160])
+                if ob:
+                    obligations.append(ob)
+                if viol:
+                    violations.append(viol)
             # vacuity twin
             try:
                 text2, report2, rel2, cmd2, out2, diags2, summary2 = run_extract(sc, u, vacuity=True)
